@@ -5,14 +5,14 @@ import CoupeModel.Proofs.ArcSwapRun
 
 * `noPanic_reach`: `Pc.panic` (the `unwrap()` of an empty maximum) is unreachable when
   `part_count ≥ 2`.
-* A potential `mu c s : Nat` that EVERY step of EVERY task strictly decreases
-  (`step_decreases`):  `mu = (cut + absW) · U + Σ_tasks pot`, where `cut + absW ≥ 0` bounds the
+* A potential `stepsLeft c s : Nat` that EVERY step of EVERY task strictly decreases
+  (`step_decreases`):  `stepsLeft = (cut + negW) · U + Σ_tasks pot`, where `cut + negW ≥ 0` bounds the
   number of moves still possible (every move lowers the cut by its gain `≥ 1`), `pot` is the
   number of steps a task can still do without moving (each attempt pops the `cut` stack; the
   chunk scan advances) and `U` pays for the post-move loop and the (at most `deg`) pushes of a
   move.  All constants are explicit functions of the input (`maxDeg`, `part_count`).
-* Consequences: a schedule executes at most `mu` steps of a pass, the default completion
-  finishes with any fuel `> mu`, and `run` returns `ok` for every list of schedules as soon as
+* Consequences: a schedule executes at most `stepsLeft` steps of a pass, the default completion
+  finishes with any fuel `> stepsLeft`, and `run` returns `ok` for every list of schedules as soon as
   `fuel > fuelBound` and `passes ≥ passesBound`.
 -/
 
@@ -413,5 +413,373 @@ theorem stepTask_pot {c : Cfg} {D : Nat} (hD : ∀ v, deg c.g v ≤ D) {parts : 
     omega
   · simp at hs
   · simp at hs
+
+/-! ### the global potential -/
+
+/-- Sum of the negative parts of all stored edge weights (`0` on a graph with non-negative
+edge weights): `cut g p ≥ -negW g` for every `p`. -/
+def negW (g : Graph) : Nat := ((edges g).map fun e => (-e.2.2).toNat).sum
+
+theorem negW_eq_zero {g : Graph} (hw : ∀ e ∈ edges g, 0 ≤ e.2.2) : negW g = 0 := by
+  unfold negW
+  generalize edges g = l at hw
+  induction l with
+  | nil => rfl
+  | cons e l ih =>
+    simp only [List.map_cons, List.sum_cons]
+    have := ih fun e he => hw e (List.mem_cons_of_mem _ he)
+    have := hw e List.mem_cons_self
+    omega
+
+theorem cut_lower (g : Graph) (p : List Nat) : 0 ≤ cut g p + (negW g : Int) := by
+  rw [cut_eq_S]
+  unfold S negW
+  generalize edges g = l
+  induction l with
+  | nil => simp
+  | cons e l ih =>
+    simp only [List.map_cons, List.sum_cons, Int.natCast_add]
+    split_ifs <;> omega
+
+/-- Upper bound on the number of moves still possible from the partition `parts`
+(every move lowers the cut by at least 1). -/
+def movesLeft (c : Cfg) (parts : List Nat) : Nat := (cut c.g parts + (negW c.g : Int)).toNat
+
+def sumPot (D P : Nat) (l : List Task) : Nat := (l.map (pot D P)).sum
+
+theorem sumPot_set (D P : Nat) {l : List Task} {i : Nat} {t : Task} (t' : Task) (h : l[i]? = some t) :
+    sumPot D P (l.set i t') + pot D P t = sumPot D P l + pot D P t' := by
+  unfold sumPot
+  induction l generalizing i with
+  | nil => simp at h
+  | cons a l ih =>
+    cases i with
+    | zero =>
+      simp only [List.getElem?_cons_zero, Option.some.injEq] at h
+      subst h
+      simp only [List.set_cons_zero, List.map_cons, List.sum_cons]; omega
+    | succ i =>
+      simp only [List.getElem?_cons_succ] at h
+      have := ih h
+      simp only [List.set_cons_succ, List.map_cons, List.sum_cons]; omega
+
+theorem sum_map_le_nat {α} (l : List α) (f : α → Nat) (b : Nat) (h : ∀ x ∈ l, f x ≤ b) :
+    (l.map f).sum ≤ l.length * b := by
+  induction l with
+  | nil => simp
+  | cons a l ih =>
+    simp only [List.map_cons, List.sum_cons, List.length_cons, Nat.succ_mul]
+    have := h a List.mem_cons_self
+    have := ih fun x hx => h x (List.mem_cons_of_mem _ hx)
+    omega
+
+/-- The potential of a state of a pass: an upper bound on the number of steps (of all
+tasks together, under any schedule) the pass can still perform. -/
+def stepsLeft (c : Cfg) (s : State) : Nat :=
+  movesLeft c s.parts * cU (maxDeg c.g) c.partCount + sumPot (maxDeg c.g) c.partCount s.tasks
+
+theorem evAllow_of_ne_store (D P : Nat) {ev : Event} (h : ∀ v p, ev ≠ .partStore v p) : evAllow D P ev = 0 := by
+  cases ev <;> first | rfl | exact absurd rfl (h _ _)
+
+/-- EVERY step of EVERY task strictly lowers the potential. -/
+theorem step_decreases {c : Cfg} {p₀ : List Nat} (hy : Hyp c p₀) {s s' : State} {tid : Nat} {ev : Event}
+    (h : Reach c p₀ s) (hstep : step c s tid = some (s', ev)) : stepsLeft c s' < stepsLeft c s := by
+  obtain ⟨t, t', ht, hst, rfl⟩ := step_spec hstep
+  have hp := stepTask_pot (deg_le_maxDeg c.g) hst
+  have hsum := sumPot_set (maxDeg c.g) c.partCount t' ht
+  unfold stepsLeft
+  simp only
+  by_cases hev : ∃ v q, ev = .partStore v q
+  · obtain ⟨v, q, rfl⟩ := hev
+    obtain ⟨ip, gain, hpc, -⟩ := stepTask_store hst
+    have h1 := inv1_reach hy.cfg h
+    have hr := (inv2_reach hy h).read tid t ht
+    unfold ReadInv at hr
+    rw [hpc] at hr
+    simp only at hr
+    have hok := (h1.tok tid t ht).pc
+    rw [hpc] at hok
+    simp only [PcOk] at hok
+    have hgain : 0 < gain := hr.2.2.1
+    have hcut : cut c.g (s.parts.set v q) = cut c.g s.parts - gain := by
+      rw [hr.2.1]
+      exact cut_set hy.gsym hy.noLoop s.parts (by rw [h1.plen]; exact hok.1) hr.1.symm hok.2.2
+    have hl := cut_lower c.g (s.parts.set v q)
+    have hm : movesLeft c (s.parts.set v q) + 1 ≤ movesLeft c s.parts := by
+      unfold movesLeft; omega
+    have hmul := Nat.mul_le_mul_right (cU (maxDeg c.g) c.partCount) hm
+    rw [Nat.succ_mul] at hmul
+    simp only [Event.applyParts, evAllow] at hp ⊢
+    omega
+  · have hev' : ∀ v p, ev ≠ .partStore v p := fun v p h => hev ⟨v, p, h⟩
+    rw [applyParts_of_ne_store hev', ]
+    rw [evAllow_of_ne_store _ _ hev'] at hp
+    omega
+
+/-! ### enabledness -/
+
+theorem stepTask_some {c : Cfg} (parts : List Nat) (locks : List Bool) (tmax : List Int) {t : Task}
+    (h1 : t.pc ≠ .done) (h2 : t.pc ≠ .panic) : ∃ t' ev, stepTask c parts locks tmax t = some (t', ev) := by
+  unfold stepTask
+  split
+  case h_4 => split_ifs <;> exact ⟨_, _, rfl⟩
+  case h_13 h => exact absurd h h1
+  case h_14 h => exact absurd h h2
+  all_goals exact ⟨_, _, rfl⟩
+
+theorem firstLive_some {s : State} {tid : Nat} (h : firstLive s = some tid) :
+    ∃ t, s.tasks[tid]? = some t ∧ t.pc ≠ .done ∧ t.pc ≠ .panic := by
+  unfold firstLive at h
+  simp only [Option.map_eq_some_iff] at h
+  obtain ⟨x, hx, rfl⟩ := h
+  have hp := List.find?_some hx
+  have hm := List.mem_of_find?_eq_some hx
+  obtain ⟨t, i⟩ := x
+  exact ⟨t, List.mem_zipIdx_iff_getElem?.1 hm, by simpa using hp⟩
+
+theorem step_of_live (c : Cfg) {s : State} {tid : Nat} {t : Task} (ht : s.tasks[tid]? = some t)
+    (h1 : t.pc ≠ .done) (h2 : t.pc ≠ .panic) : ∃ s' ev, step c s tid = some (s', ev) := by
+  obtain ⟨t', ev, hst⟩ := stepTask_some (c := c) s.parts s.locks s.tmax h1 h2
+  unfold step
+  rw [ht]
+  simp only [hst]
+  exact ⟨_, _, rfl⟩
+
+/-- No deadlock: a reachable state in which not every task is done has an enabled task. -/
+theorem progress {c : Cfg} {p₀ : List Nat} (hc : CfgOk c p₀) {s : State} (h : Reach c p₀ s)
+    (hnd : allDone s = false) : ∃ tid s' ev, step c s tid = some (s', ev) := by
+  cases hfl : firstLive s with
+  | none => rw [allDone_of_firstLive hfl (noPanic_any (noPanic_reach hc h))] at hnd; cases hnd
+  | some tid =>
+    obtain ⟨t, ht, h1, h2⟩ := firstLive_some hfl
+    exact ⟨tid, step_of_live c ht h1 h2⟩
+
+/-! ### every schedule -/
+
+/-- Steps executed by a schedule + the potential left ≤ the potential before. -/
+theorem runSchedule_mu {c : Cfg} {p₀ : List Nat} (hy : Hyp c p₀) (sched : List Nat) {s : State}
+    (tr : List (Nat × Event)) (h : Reach c p₀ s) :
+    (runSchedule c s sched tr).2.length + stepsLeft c (runSchedule c s sched tr).1 ≤ tr.length + stepsLeft c s := by
+  induction sched generalizing s tr with
+  | nil => exact Nat.le_refl _
+  | cons tid rest ih =>
+    unfold runSchedule
+    split
+    · exact ih tr h
+    · next s' ev hst =>
+      have := ih ((tid, ev) :: tr) (Reach.step h hst)
+      have := step_decreases hy h hst
+      simp only [List.length_cons] at *
+      omega
+
+theorem finishPass_total {c : Cfg} {p₀ : List Nat} (hy : Hyp c p₀) (fuel : Nat) {s : State}
+    (tr : List (Nat × Event)) (h : Reach c p₀ s) (hf : stepsLeft c s < fuel) :
+    ∃ s' tr', finishPass c fuel s tr = some (s', tr') := by
+  induction fuel generalizing s tr with
+  | zero => omega
+  | succ fuel ih =>
+    unfold finishPass
+    cases hfl : firstLive s with
+    | none => exact ⟨s, tr, rfl⟩
+    | some tid =>
+      obtain ⟨t, ht, h1, h2⟩ := firstLive_some hfl
+      obtain ⟨s', ev, hst⟩ := step_of_live c ht h1 h2
+      simp only [hst]
+      have := step_decreases hy h hst
+      exact ih _ (Reach.step h hst) (by omega)
+
+/-- The default completion, too, only spends potential. -/
+theorem finishPass_mu {c : Cfg} {p₀ : List Nat} (hy : Hyp c p₀) (fuel : Nat) {s s' : State}
+    {tr tr' : List (Nat × Event)} (h : Reach c p₀ s) (hf : finishPass c fuel s tr = some (s', tr')) :
+    tr'.length + stepsLeft c s' ≤ tr.length + stepsLeft c s := by
+  induction fuel generalizing s tr with
+  | zero => simp [finishPass] at hf
+  | succ fuel ih =>
+    unfold finishPass at hf
+    split at hf
+    · simp only [Option.some.injEq, Prod.mk.injEq] at hf
+      obtain ⟨rfl, rfl⟩ := hf
+      exact Nat.le_refl _
+    · split at hf
+      · simp at hf
+      · next s1 ev hst =>
+        have := ih (Reach.step h hst) hf
+        have := step_decreases hy h hst
+        simp only [List.length_cons] at *
+        omega
+
+/-- A schedule that has executed `stepsLeft c s` steps has driven the pass to completion. -/
+theorem allDone_of_long {c : Cfg} {p₀ : List Nat} (hy : Hyp c p₀) {s : State} (h : Reach c p₀ s)
+    (sched : List Nat) (hlen : stepsLeft c s ≤ (runSchedule c s sched []).2.length) :
+    allDone (runSchedule c s sched []).1 = true := by
+  have h1 := runSchedule_mu hy sched [] h
+  have h2 := runSchedule_reach sched [] h
+  cases hd : allDone (runSchedule c s sched []).1 with
+  | true => rfl
+  | false =>
+    obtain ⟨tid, s', ev, hst⟩ := progress hy.cfg h2 hd
+    have := step_decreases hy h2 hst
+    simp only [List.length_nil] at h1
+    omega
+
+/-! ### bounds that depend on the input only -/
+
+/-- Bound on the number of passes: `cut(input) + negW + 1` (`= cut(input) + 1` when no edge
+weight is negative). -/
+def passesBound (c : Cfg) (p₀ : List Nat) : Nat := movesLeft c p₀ + 1
+
+/-- Bound on the number of steps of ONE pass (all tasks together, any schedule), uniform
+over the passes: a function of the input only. -/
+def fuelBound (c : Cfg) (p₀ : List Nat) : Nat :=
+  movesLeft c p₀ * cU (maxDeg c.g) c.partCount +
+    c.threadCount * (c.ipt * cS (maxDeg c.g) c.partCount + 2)
+
+theorem movesLeft_le {c : Cfg} {p₀ : List Nat} (hy : Hyp c p₀) {s : State} (h : Reach c p₀ s) :
+    movesLeft c s.parts ≤ movesLeft c p₀ := by
+  have h2 := inv2_reach hy h
+  have h4 := h2.cutAcct
+  have h6 := sum_map_nonneg (l := s.tasks) (fun t => t.md.edgeCutGain) h2.gainNonneg.2
+  have := h2.gainNonneg.1
+  unfold movesLeft
+  omega
+
+theorem passCount_le {c : Cfg} {p₀ : List Nat} (hy : Hyp c p₀) {s : State} (h : Reach c p₀ s) :
+    s.md.passCount ≤ passesBound c p₀ := by
+  have h2 := inv2_reach hy h
+  have h3 := h2.passes.1
+  have h4 := h2.cutAcct
+  have h5 := cut_lower c.g s.parts
+  have h6 := sum_map_nonneg (l := s.tasks) (fun t => t.md.edgeCutGain) h2.gainNonneg.2
+  have h7 := cut_lower c.g p₀
+  unfold passesBound movesLeft
+  omega
+
+theorem sumPot_mkTasks (c : Cfg) (D P n : Nat) (pw : List Int) :
+    sumPot D P (mkTasks c n pw) ≤ c.threadCount * (c.ipt * cS D P + 2) := by
+  unfold sumPot
+  have := sum_map_le_nat (mkTasks c n pw) (pot D P) (c.ipt * cS D P + 2) (by
+    intro t ht
+    obtain ⟨i, hi⟩ := List.getElem?_of_mem ht
+    rw [mkTasks_get hi]
+    simp only [pot, potOf, List.length_nil, Nat.zero_mul, Nat.zero_add]
+    have e : (i + 1) * c.ipt = i * c.ipt + c.ipt := Nat.succ_mul _ _
+    have : min n ((i + 1) * c.ipt) - i * c.ipt ≤ c.ipt := by omega
+    have := Nat.mul_le_mul_right (cS D P) this
+    omega)
+  rw [mkTasks_length] at this
+  exact this
+
+theorem mu_beginPass_le {c : Cfg} {p₀ : List Nat} (hy : Hyp c p₀) {s : State}
+    (h : Reach c p₀ (beginPass c s)) : stepsLeft c (beginPass c s) ≤ fuelBound c p₀ := by
+  have h1 := movesLeft_le hy h
+  have h2 := sumPot_mkTasks c (maxDeg c.g) c.partCount s.parts.length s.pw
+  have h3 := Nat.mul_le_mul_right (cU (maxDeg c.g) c.partCount) h1
+  unfold stepsLeft fuelBound
+  simp only [beginPass] at h1 h3 ⊢
+  omega
+
+/-- In every reachable state the potential is below `fuelBound` (it only decreases inside a
+pass, and every pass starts below it). -/
+theorem mu_le_fuelBound {c : Cfg} {p₀ : List Nat} (hy : Hyp c p₀) {s : State} (h : Reach c p₀ s) :
+    stepsLeft c s ≤ fuelBound c p₀ := by
+  induction h with
+  | init => exact mu_beginPass_le hy Reach.init
+  | step hr hstep ih => have := step_decreases hy hr hstep; omega
+  | pass hr hd ha _ => exact mu_beginPass_le hy (Reach.pass hr hd ha)
+
+/-! ### the executable pass loop is total -/
+
+theorem step_md {c : Cfg} {s s' : State} {tid : Nat} {ev : Event} (h : step c s tid = some (s', ev)) :
+    s'.md = s.md := by
+  obtain ⟨t, t', -, -, rfl⟩ := step_spec h
+  rfl
+
+theorem runSchedule_md (c : Cfg) (sched : List Nat) (s : State) (tr : List (Nat × Event)) :
+    (runSchedule c s sched tr).1.md = s.md := by
+  induction sched generalizing s tr with
+  | nil => rfl
+  | cons tid rest ih =>
+    unfold runSchedule
+    split
+    · exact ih s tr
+    · next s' ev hst => rw [ih, step_md hst]
+
+theorem finishPass_md {c : Cfg} (fuel : Nat) {s s' : State} {tr tr' : List (Nat × Event)}
+    (hf : finishPass c fuel s tr = some (s', tr')) : s'.md = s.md := by
+  induction fuel generalizing s tr with
+  | zero => simp [finishPass] at hf
+  | succ fuel ih =>
+    unfold finishPass at hf
+    split at hf
+    · simp only [Option.some.injEq, Prod.mk.injEq] at hf
+      obtain ⟨rfl, -⟩ := hf
+      rfl
+    · split at hf
+      · simp at hf
+      · next s1 ev hst => rw [ih hf, step_md hst]
+
+theorem runLoop_total {c : Cfg} {p₀ : List Nat} (hy : Hyp c p₀) {fuel : Nat} (hf : fuelBound c p₀ < fuel)
+    (passes : Nat) (s : State) (scheds : List (List Nat)) (acc : List (List (Nat × Event)))
+    (h : Reach c p₀ (beginPass c s))
+    (hp : passesBound c p₀ < passes + (beginPass c s).md.passCount) :
+    ∃ ids md tr, runLoop c fuel passes s scheds acc = (.ok ids md, tr) := by
+  induction passes generalizing s scheds acc with
+  | zero => have := passCount_le hy h; omega
+  | succ passes ih =>
+    have h2 := runSchedule_reach (scheds.headD []) [] h
+    have hmu2 := mu_le_fuelBound hy h2
+    obtain ⟨s3, tr3, hfin⟩ := finishPass_total hy fuel (runSchedule c (beginPass c s) (scheds.headD []) []).2 h2
+      (by omega)
+    obtain ⟨h3, hlive⟩ := finishPass_reach fuel h2 hfin
+    have hnp := noPanic_any (noPanic_reach hy.cfg h3)
+    have hdone := allDone_of_firstLive hlive hnp
+    have hmd : s3.md = (beginPass c s).md := by
+      rw [finishPass_md fuel hfin, runSchedule_md]
+    unfold runLoop
+    simp only [hfin, hnp, Bool.false_eq_true, if_false]
+    by_cases hagain : (endPass c s3).2 = true
+    · simp only [hagain, if_true]
+      refine ih _ _ _ (Reach.pass h3 hdone hagain) ?_
+      obtain ⟨-, -, -, -, -, e6, -, -⟩ := endPass_facts hy (inv2_reach hy h3)
+      have : (beginPass c (endPass c s3).1).md.passCount = (endPass c s3).1.md.passCount + 1 := rfl
+      rw [this, e6, hmd]
+      omega
+    · simp only [hagain]
+      exact ⟨_, _, _, rfl⟩
+
+/-- `run` returns `ok` under EVERY list of schedules, as soon as the per-pass fuel exceeds
+`fuelBound` and the number of passes allowed reaches `passesBound`. -/
+theorem run_total {c : Cfg} {p₀ : List Nat} (hy : Hyp c p₀) (scheds : List (List Nat)) {fuel passes : Nat}
+    (hf : fuelBound c p₀ < fuel) (hp : passesBound c p₀ ≤ passes) :
+    ∃ ids md tr, run c p₀ scheds fuel passes = (.ok ids md, tr) := by
+  unfold run
+  refine runLoop_total hy hf passes _ scheds [] Reach.init ?_
+  have : (beginPass c (initState c p₀)).md.passCount = 1 := rfl
+  omega
+
+theorem runLoop_ne_panic {c : Cfg} {p₀ : List Nat} (hc : CfgOk c p₀) (fuel passes : Nat) (s : State)
+    (scheds : List (List Nat)) (acc : List (List (Nat × Event))) (h : Reach c p₀ (beginPass c s)) :
+    (runLoop c fuel passes s scheds acc).1 ≠ .panic := by
+  induction passes generalizing s scheds acc with
+  | zero => simp [runLoop]
+  | succ passes ih =>
+    have h2 := runSchedule_reach (scheds.headD []) [] h
+    unfold runLoop
+    simp only
+    split
+    · simp
+    · next s3 tr3 hfin =>
+      obtain ⟨h3, hlive⟩ := finishPass_reach fuel h2 hfin
+      have hnp := noPanic_any (noPanic_reach hc h3)
+      have hdone := allDone_of_firstLive hlive hnp
+      simp only [hnp, Bool.false_eq_true, if_false]
+      split
+      · next hagain => exact ih _ _ _ (Reach.pass h3 hdone hagain)
+      · simp
+
+/-- The executable pass loop never reports a panic, whatever the schedules, fuel and passes. -/
+theorem run_ne_panic {c : Cfg} {p₀ : List Nat} (hc : CfgOk c p₀) (scheds : List (List Nat)) (fuel passes : Nat) :
+    (run c p₀ scheds fuel passes).1 ≠ .panic :=
+  runLoop_ne_panic hc fuel passes _ scheds [] Reach.init
 
 end Coupe.ArcSwap
